@@ -685,3 +685,73 @@ def rf153(run):
     if n < 4:
         raise F.AnalysisBroken('process_inlines: only %d operand writes found' % n)
     return n
+
+
+# ---------------------------------------------------------------------------------------------
+# RF161: the value-number table of the simplifier belongs to one function at a time
+# ---------------------------------------------------------------------------------------------
+
+def rf161(run):
+    import rf_proto
+    rule = 'RF161'
+    run.rule(rule, 'mir.c: the table of vn_add_val maps (opcode, operands) to a temporary *register number of the function being processed*.  '
+                   'MIR_link simplifies all functions and then runs process_inlines on each, so every per-function driver — a function '
+                   'with a MIR_item_t parameter that reaches vn_add_val and is called from a function without one — empties the table '
+                   '(vn_empty) on every path before its first call that can reach vn_add_val.  A stale entry makes simplify_op load a value '
+                   'into a register number of another function, i.e. into an unrelated variable of this one')
+    tu = run.tu('mir')
+    cg = tu.callgraph()
+    reach_cache = {}
+
+    def reaches(fn):
+        if fn not in reach_cache:
+            reach_cache[fn] = 'vn_add_val' in tu.reachable([fn])
+        return reach_cache[fn]
+
+    def has_item_param(g):
+        return any((getattr(tu.type(q), 's', '') or '') == 'MIR_item_t' for q in g.params)
+    cands = [g for g in tu.func_list if g.body is not None and g.file.startswith('/repo') and g.name != 'vn_add_val' and has_item_param(g) and reaches(g.name)]
+    cnames = {g.name for g in cands}
+    callers = {}
+    for g in tu.func_list:
+        if g.body is None:
+            continue
+        for x in g.walk():
+            if x['k'] == 'CallExpr' and x.get('callee') in cnames:
+                callers.setdefault(x['callee'], set()).add(g.name)
+    drivers = [g for g in cands if callers.get(g.name) and not (callers[g.name] & cnames)]
+    run.control(rule, 'per-function drivers found (simplify_func, process_inlines)', len(drivers) >= 2)
+    n = 0
+    for g in drivers:
+        cfg = g.cfg
+        run.functions_analysed.add(('mir', g.name))
+        empt = set(rf_proto.calls_in(cfg, 'vn_empty'))
+        uses = set()
+        for b, B in cfg.blocks.items():
+            for el in B.elems:
+                for y in F.walk(el):
+                    if y['k'] == 'CallExpr' and y.get('callee') and y['callee'] != 'vn_empty' and (y['callee'] == 'vn_add_val' or reaches(y['callee'])):
+                        uses.add(b)
+        free = cfg.reachable_from(cfg.entry, avoid=lambda b: b in empt)
+        bad = sorted(uses & free)
+        # a block that both empties and uses: the emptying call has to come first
+        for b in uses & empt:
+            order = []
+            for el in cfg.blocks[b].elems:
+                for y in F.walk(el):
+                    if y['k'] == 'CallExpr' and y.get('callee'):
+                        order.append(y['callee'])
+            first_use = next((k for k, c_ in enumerate(order) if c_ != 'vn_empty' and (c_ == 'vn_add_val' or reaches(c_))), None)
+            first_empty = order.index('vn_empty') if 'vn_empty' in order else None
+            if first_use is not None and (first_empty is None or first_use < first_empty) and b in cfg.reachable_from(cfg.entry, avoid=lambda bb: bb in (empt - {b})):
+                bad.append(b)
+        n += 1
+        ok = not bad
+        run.ob(rule, (g.name,), ok, {'driver': g.name, 'called from': sorted(callers[g.name]), 'blocks calling into vn_add_val': len(uses),
+                                    'reachable without vn_empty': len(bad)})
+        if not ok:
+            run.violation(rule, g, 'value numbers of another function', '%s can reach vn_add_val (through simplify_op) on a path that has not called '
+                          'vn_empty: the table still holds the entries of the function processed before, and a hit returns that '
+                          'function\'s temporary register number — `mov <that number>, callee` then overwrites an unrelated variable' % g.name,
+                          line=g.line)
+    return n
